@@ -27,7 +27,7 @@ if os.path.dirname(HERE) not in sys.path:
 PROCEDURAL = {1, 5, 6, 7, 8, 9, 10, 11, 12, 13, 14, 15, 16, 27, 28, 29}
 PROPERTY_LIKE = {2, 3, 4}
 TRACED = PROCEDURAL | PROPERTY_LIKE
-TOOL = 4
+TOOL = 1          # sys.monitoring.COVERAGE_ID (4 is core.LineCoverage, 3 the frozen trace, 2 / 5 are picked by the checker ir tie)
 _state = {'ready': None, 'why': '', 'codes': {}, 'lines': {}, 'labels': {}, 'buf': None, 'n_exec': 0, 'n_traced': 0, 'tier': None, 'ids': {}}
 
 
